@@ -408,3 +408,177 @@ func (c *c11Compact) Nontrivial() bool {
 }
 func (c *c11Compact) Kind() string { return "compaction/rlimit" }
 func (c *c11Compact) Evals() int   { return len(c.Limits) }
+
+// ---- C11, system level: one file of the table cannot be written at all (it is a symlink to /dev/full): the flush
+// must report it, whichever file it is
+
+type c11DevFull struct {
+	KVs []tblKV `json:"kvs"`
+	// observations: per file, did the flush report an error
+	Files []string `json:"files"`
+	Errs  []bool   `json:"errs"`
+	Skip  string   `json:"skip,omitempty"`
+	Fatal string   `json:"fatal,omitempty"`
+}
+
+func (c *c11DevFull) Exec() {
+	defer func() {
+		if r := recover(); r != nil {
+			c.Fatal = fmt.Sprint("panic: ", r)
+		}
+	}()
+	c.Fatal, c.Files, c.Errs, c.Skip = "", nil, nil, ""
+	if _, err := os.Stat("/dev/full"); err != nil {
+		c.Skip = "/dev/full is not available"
+		return
+	}
+	for _, f := range []string{sstables.IndexFileName, sstables.DataFileName, sstables.BloomFileName, sstables.MetaFileName} {
+		dir := tmpDir("c11d-")
+		must(os.Symlink("/dev/full", filepath.Join(dir, f)))
+		m := memstore.NewMemStore()
+		for _, kv := range c.KVs {
+			if kv.Nil {
+				must(m.Tombstone(kv.K))
+			} else {
+				must(m.Upsert(kv.K, kv.val()))
+			}
+		}
+		o := defaultTblOpts()
+		o.DataComp, o.WBuf = 0, 64
+		err := m.FlushWithTombstones(o.writerOptions(dir)...)
+		c.Files = append(c.Files, f)
+		c.Errs = append(c.Errs, err != nil)
+		os.RemoveAll(dir)
+	}
+}
+
+func (c *c11DevFull) Oracle() (bool, string) {
+	if c.Fatal != "" {
+		return false, c.Fatal
+	}
+	for i, f := range c.Files {
+		if !c.Errs[i] {
+			return false, fmt.Sprintf("every write to %s fails (no space left on device) but the flush reported success", f)
+		}
+	}
+	return true, ""
+}
+func (c *c11DevFull) Sx() string       { return "" }
+func (c *c11DevFull) Nontrivial() bool { return len(c.Files) == 4 }
+func (c *c11DevFull) Kind() string     { return "flush/devfull" }
+
+// ---- C11, system level: recovery (Open) under a file-size limit: the flush of the replayed log fails; Open must
+// report it, or at least a later unrestricted Open must still find every acknowledged operation
+
+type c11Recover struct {
+	NKeys  int   `json:"nkeys"`
+	ValLen int   `json:"val_len"`
+	Limits []int `json:"limits"`
+	// observations per limit
+	OpenErr []bool   `json:"open_err"`
+	Bad     []string `json:"bad"`
+	Fatal   string   `json:"fatal,omitempty"`
+}
+
+func recoverChild(args []string) int {
+	fs := flag.NewFlagSet("c11recover", flag.ExitOnError)
+	in := fs.String("args", "", "json")
+	_ = fs.Parse(args)
+	var a compactChildArgs
+	childArgs(*in, &a)
+	signal.Ignore(syscall.SIGXFSZ)
+	lim := syscall.Rlimit{Cur: uint64(a.Limit), Max: uint64(a.Limit)}
+	must(syscall.Setrlimit(syscall.RLIMIT_FSIZE, &lim))
+	r := &dbRunner{dir: a.Dir}
+	if err := r.open(dbOpts{MemstoreBytes: 1 << 30, Threshold: 10, MaxSize: 5 << 30, RatioPct: 100, WBuf: 4096, RBuf: 4096}); err != nil {
+		fmt.Println("OPENERR")
+		return 0
+	}
+	fmt.Println("OPENOK")
+	return 0 // no Close: whatever Open left on disk is what the next Open finds
+}
+
+func init() { subcommands["c11recover"] = recoverChild }
+
+func (c *c11Recover) Exec() {
+	defer func() {
+		if r := recover(); r != nil {
+			c.Fatal = fmt.Sprint("panic: ", r)
+		}
+	}()
+	c.Fatal, c.OpenErr, c.Bad = "", nil, nil
+	base := tmpDir("c11r-")
+	defer os.RemoveAll(base)
+	opts := dbOpts{MemstoreBytes: 1 << 30, Threshold: 10, MaxSize: 5 << 30, RatioPct: 100, WBuf: 4096, RBuf: 4096}
+	// a directory whose acknowledged operations exist in the WAL only (the process "was killed": no Close)
+	src := filepath.Join(base, "db")
+	must(os.MkdirAll(src, 0755))
+	r := &dbRunner{dir: src}
+	must(r.open(opts))
+	ref := map[string][]byte{}
+	rnd := rand.New(rand.NewSource(int64(c.NKeys*977 + c.ValLen)))
+	for k := 0; k < c.NKeys; k++ {
+		v := make([]byte, c.ValLen)
+		rnd.Read(v)
+		key := fmt.Sprintf("key-%02d", k)
+		must(r.db.PutBytes([]byte(key), v))
+		ref[key] = v
+	}
+	img := filepath.Join(base, "img")
+	must(copyTree(src, img)) // the kill image: everything was acknowledged (synchronous WAL)
+	r.db.Close()
+	self, _ := os.Executable()
+	for _, lim := range c.Limits {
+		work := filepath.Join(base, "work")
+		os.RemoveAll(work)
+		must(copyTree(img, work))
+		a, _ := json.Marshal(compactChildArgs{Dir: work, Limit: lim})
+		out, err := exec.Command(self, "c11recover", "--args", string(a)).CombinedOutput()
+		if err != nil {
+			c.Fatal = fmt.Sprintf("child failed: %v %s", err, out)
+			return
+		}
+		c.OpenErr = append(c.OpenErr, bytes.Contains(out, []byte("OPENERR")))
+		bad := ""
+		r2 := &dbRunner{dir: work}
+		if c.OpenErr[len(c.OpenErr)-1] {
+			// the failure was reported: nothing more is required here
+		} else if err := r2.open(opts); err != nil {
+			bad = "the restricted Open reported success, but afterwards the directory does not re-open: " + err.Error()
+		} else {
+			for key, want := range ref {
+				v, err := r2.db.GetBytes([]byte(key))
+				if err != nil || !bytes.Equal(v, want) {
+					bad = fmt.Sprintf("after an Open whose recovery flush could not write (it reported error: %v) and a restart, the acknowledged %s is gone or differs (err %v)", c.OpenErr[len(c.OpenErr)-1], key, err)
+					break
+				}
+			}
+			r2.db.Close()
+		}
+		c.Bad = append(c.Bad, bad)
+	}
+}
+
+func (c *c11Recover) Oracle() (bool, string) {
+	if c.Fatal != "" {
+		return false, c.Fatal
+	}
+	for i, b := range c.Bad {
+		if b != "" {
+			return false, fmt.Sprintf("file size limit %d: %s", c.Limits[i], b)
+		}
+	}
+	return true, ""
+}
+func (c *c11Recover) Sx() string { return "" }
+func (c *c11Recover) Nontrivial() bool {
+	e := 0
+	for _, x := range c.OpenErr {
+		if x {
+			e++
+		}
+	}
+	return e >= 1
+}
+func (c *c11Recover) Kind() string { return "recovery/rlimit" }
+func (c *c11Recover) Evals() int   { return len(c.Limits) }
